@@ -15,7 +15,7 @@ TECHNIQUE = "runtime monitors on Deltas.apply / Stack.apply with explicit-loop r
 RULE = (
     "cases: seeded N-D shapes (1-4 dims, sizes from {0,1,2,3,5,8,13} with 0 only on non-filtered axes), every axis / target_axis / time_axis "
     "value incl. negative, num_deltas 0-4, context windows 1-5, pad modes edge/constant/reflect/symmetric/wrap (+ linear_ramp, mean/median/maximum/minimum, a callable for Deltas), num_vectors 1-6 incl. > frames, "
-    "float32/float64/int32, in_place, 2-D fast path vs the same data as 3-D; non-trivial = (Deltas) num_deltas >= 1 and >= 2 frames, "
+    "float32/float64/int32, in_place, 2-D fast path vs the same data as 3-D; every fifth object applied through a copy (deepcopy / pickle / copy), higher-order Deltas siblings with the same window built first; non-trivial = (Deltas) num_deltas >= 1 and >= 2 frames, "
     "(Stack) num_vectors >= 2 and >= 1 output frame; distinct by (op, shape, dtype, parameters)"
 )
 ASSUMPTIONS = [
